@@ -44,7 +44,7 @@ CLAIMED = {
          "pattern and every antipodally invariant rotation pattern, and ALL positive geometry values, radii and factors f: every entry of the "
          "three n x n matrices equals the closed form of the statement (position quantity x f / f^2 for same rotation, folded rotation quantity for "
          "same position, zero otherwise), symmetric, empty diagonal, stored entries > 0, identical indices/indptr and coo order for the three, "
-         "volume_n = V_pos[n div n_b] * V_rot[n mod n_b] * f^3. Single-shell grids (n_t = 1, incl. a single position) are inside the bound. Histories: get_full_prefactors then the getters again; other FullGrid objects of the same process (another factor f and a colliding radial grid under the same lossy name; a Cartesian twin under the same names) are built and queried before the grid under test exists and again between its construction and its first getter; every path starts from import-time module/class state.", "§5 C02"),
+         "volume_n = V_pos[n div n_b] * V_rot[n mod n_b] * f^3. Single-shell grids (n_t = 1, incl. a single position) are inside the bound. Histories: get_full_prefactors then the getters again; other FullGrid objects of the same process (another factor f and a colliding radial grid under the same lossy name; a Cartesian twin under the same names) are built and queried before the grid under test exists and again between its construction and its first getter; every path starts from import-time module/class state. Cartesian face areas (cart_surfaces shapes): the real get_cartesian_surfaces / _get_coordinates_of_border_polygons on the real Qhull combinatorics of concrete grids with SYMBOLIC polygon areas: entry (i,j) is the area of the face cells i and j share, hence symmetric, on the adjacency pattern.", "§5 C02"),
  "C19": ("Exhaustive over the size box (n_b,n_o in 1..5, n_t in 1..4; thorough 1..7 / 1..5, plus the non-default algorithms) x both position modes x "
          "five getters: the REAL constructors, name/translation parsers, generators, the size threshold choosing the cell model and the real "
          "MikroVoronoi run; in the default mode the Qhull-backed Voronoi classes are contract stubs with symbolic positive values; in Cartesian mode the position part is concrete and the real Qhull classes run (only the 4-D rotation cells are stubs). On every feasible path each getter returns "
@@ -55,29 +55,29 @@ CLAIMED = {
          "ARBITRARY symbolic grid array (any positions, any non-zero quaternions): one frame per row in row order, atom order molecule 1 then 2, "
          "molecule 1 unchanged, every atom of molecule 2 at R(q_k)(x0 - c0) + c0 + p_k (so COM at c0 + p_k), the caller's universes untouched; "
          ">= 2 frames exposes state carried between frames. R(q) is proved orthogonal with det 1 for all q != 0 (distance preservation). "
-         "TwoMoleculeWriter._center_both_molecules proved to be a pure translation putting both COMs at the origin. Trajectory-as-universe API on a memory-universe model with MDAnalysis' sharing rules: get_pt_as_universe has one frame per row in row order with the prescribed placement, the one-molecule universes are the corresponding atom blocks, and both still hold after the caller edited the derived universes in place.", "§5 C10"),
+         "TwoMoleculeWriter._center_both_molecules proved to be a pure translation putting both COMs at the origin. Trajectory-as-universe API on a memory-universe model with MDAnalysis' sharing rules: get_pt_as_universe has one frame per row in row order with the prescribed placement, the one-molecule universes are the corresponding atom blocks, and both still hold after the caller edited the derived universes in place. Molecules read through the package's reader (reader shapes): the real OneMoleculeReader on modelled XYZ (1-2 frames) / GRO files with symbolic coordinates, then the real Pseudotrajectory: frame k = molecule 1 centred + molecule 2's centred file geometry rotated and placed; the file-reader model is differentially self-tested against real MDAnalysis readers on real files on every run.", "§5 C10"),
  "C16": ("For every text template in the bound (number; lists/tuples of <=4 (5) numbers in any order; linspace with num 1..5 and default; "
          "range/arange with 1-3 arguments) the template's NUMBERS are symbolic reals: proved for ALL values: result = 10 x intended values "
          "(sorted permutation for lists via counting; closed forms for linspace/arange with the arange length decided by forking, <= 6), rejection "
          "only when a distance is negative, increments = (r_1, positive differences) or rejection exactly when the radii are not strictly "
          "increasing positive, R_k midpoints, R_T, R_1 = 2 r_1, interleaving, include_zero, and the md5 argument is the returned array itself.",
          "§5 C16"),
- "C07": ("Claimed for the double-cover logic only. For ALL quaternion coordinates (each 0 or |x|>1e-5): q_in_upper_sphere = 'first non-zero "
+ "C07": ("Claimed for the half selection of the hypercube algorithms, the double-cover logic and the one-point grids (that the polytope / random generators produce well separated points for every N is a concrete run: outside). For ALL quaternion coordinates (each 0 or |x|>1e-5): q_in_upper_sphere = 'first non-zero "
          "coordinate positive', exactly one of q and -q is canonical; hemisphere_quaternion_set returns, row by row, the representative in the "
          "requested half (N<=2, thorough 3); the real SphereGrid4Dim._gen_grid / gen_grid on an arbitrary canonical unit half grid G (N<=4) yields "
          "[G; -G] in order, only_upper returns exactly G, upper indices 0..N-1, and a row whose length is off 1 is rejected by the norm assertion. "
-         "That the concrete generators produce N distinct, well-separated points is a concrete run with nothing to quantify over: outside. History: the canonical-representative helper applied to the double-cover array a grid handed out must leave the grid [G; -G].", "§5 C07"),
+         "That the concrete generators produce N distinct, well-separated points is a concrete run with nothing to quantify over: outside. History: the canonical-representative helper applied to the double-cover array a grid handed out must leave the grid [G; -G]. Half selection of the hypercube algorithms (halfsel shapes): the real FullDiv/Cube4D _gen_grid, Cube4DPolytope.get_half_of_hypercube, q_in_upper_sphere, which_row_is_k on a polytope stand-in (a subclass of the real class) whose 16 nodes are 8 antipodal pairs, two of them SYMBOLIC unit quaternions with 0..3 leading zeros: rows canonical, nodes of the polytope, pairwise different rotations, [G;-G]; fulldiv: every rotation of the level present. One-point grids through the factory with N in {None,1,2,3} (concrete, judged by the statement).", "§5 C07"),
  "C09": ("For n_b,n_o,n_t in 1..3 (thorough 4) with symbolic direction coordinates, quaternions and radii: the array has n_t*n_o*n_b rows of 7; for a "
          "SYMBOLIC row index n the row equals (r_{(n div n_b) div n_o} * o_{(n div n_b) mod n_o}, q_{n mod n_b}); the position array likewise; the "
          "index helpers equal n div n_b / n mod n_b for symbolic n and for index arrays (each single index, reversed, seeded subset with repeats). "
-         "The decomposition back into o/b/t grids (np.unique on rounded float rows) is outside. Other grids of the same process under the same lossy names are built and asked for their arrays before and after the construction of the grid under test.", "§5 C09"),
- "C11": ("Claimed for radial, direction and index composition; the rotation index b is a stub (eigen-decomposition + SVD: outside) and so is the round "
+         "The decomposition back into o/b/t grids (np.unique on rounded float rows) is outside. Other grids of the same process under the same lossy names are built and asked for their arrays before and after the construction of the grid under test. An index-helper result that is no 1-D table (0-d / None) is a structural failure, replayed.", "§5 C09"),
+ "C11": ("Claimed for radial, direction, nearest-grid-rotation and index composition; the recovery of the molecule's orientation from atom coordinates is a stub (eigen-decomposition + handedness fix-up: outside) and so is the round "
          "trip. Radial: for n_t in 2..4 (thorough 6), ALL increasing radii and ALL centre-of-mass vectors: the returned index k satisfies "
          "R_{k-1} <= |c| <= R_k with the C05/C16 boundaries AND is a nearest radius (the two coincide), NaN iff |c| > R_T unless outliers are included. "
          "Direction: for n_o in 2..3 (thorough 4), ALL unit direction vectors and ALL c != 0, both metrics: the returned index maximises o_j.c -- by "
          "a chain of small lemmas (norm positive, |u|=1, keys, key order from the path's comparisons, monotone squares, expansion, positive scaling) "
          "each discharged in milliseconds where the direct query is unknown in every solver. Composition through the real get_full_assignments with "
-         "n_t=3, n_o=2, n_b in {1,3}: index = (t*n_o+o)*n_b+b, NaN propagates.", "§5 C11"),
+         "n_t=3, n_o=2, n_b in {1,3}: index = (t*n_o+o)*n_b+b, NaN propagates. Frame bookkeeping of the rotation index (frames shapes): the real _get_quaternion_assignments / _get_rotation_matrices / _complex_mdanalysis_func with only the eigen-decomposition (per-frame contract stub), the handedness fix-up and Pool (serial) replaced; symbolic centres of mass decide which frames are outliers. Nearest grid rotation (nearest shapes): for an arbitrary SYMBOLIC unit quaternion as the molecule's rotation and four concrete rotation grids the returned b minimises the angle of the relative rotation (Rotation modelled: as_matrix, from_matrix, magnitude monotone in the trace, as_quat with scipy's sign rule; each fact self-tested against scipy).", "§5 C11"),
  "C20": ("Two families on the real molgri.io code. xvg: EnergyReader.load_energy / _get_column_names / load_single_energy_column run on a file whose "
          "13..15 (thorough ..18) header lines have SYMBOLIC kinds ('#' lines first, at most 13, then '@' lines; which '@' lines are series legends, at "
          "symbolic positions, with symbolic increasing numbers 0..9; also all ten legends), 0..2 data lines with symbolic values; `open` hands out line "
@@ -87,7 +87,7 @@ CLAIMED = {
          "line in file order with the exact values, single-column access, same table on a second read. persist: the real GridWriter.__init__/save_* "
          "and GridReader.load_* with npy/npz as the identity (self-tested on real files): all five artefacts read back entry-wise identical in format, "
          "shape, pattern, stored order and value to the grid's getters, also after a second write, and writing leaves the grid untouched. The csv round "
-         "trip (pure pandas) and the byte formats are outside.", "§5 C20"),
+         "trip (pure pandas) and the byte formats are outside. DataFrame.drop_duplicates / reset_index / copy are part of the pandas model (equality of parsed numbers decided by the solver).", "§5 C20"),
  "C14": ("Claimed for the first sentence (the spectral sentence -- ARPACK, sorting, dense agreement -- is outside). One symbolic run end to end above the "
          "compiled geometry: stubs -> real fold + real position assembly -> real FullGrid getters -> real GridWriter.save_* / GridReader.load_* (file "
          "formats modelled as the identity, validated on real files each run) -> real SQRA.get_rate_matrix with symbolic energies, for "
